@@ -138,13 +138,14 @@ def get_type_graph(t: type) -> graphlib.TopologicalSorter[TypeNode]:
             # We detected a cyclic type,
             #   wrap in a ForwardRef and don't add it to the stack
             #   This will terminate this edge to prevent infinite cycles.
-            #   A revisited subscripted generic or union is not a cycle by itself: it has no
-            #   name a reference could resolve to (its parameters would be lost), so we expand
-            #   it again and let the cycle (if any) be cut at the named type inside it.
             is_structural = inspection.issubscriptedgeneric(
                 child
             ) or inspection.isuniontype(child)
-            if is_visited and can_be_cyclic and not is_structural:
+            if is_visited and can_be_cyclic and is_structural:
+                # A subscripted generic or union has no name a reference could resolve
+                #   to without losing its parameters: defer the type itself.
+                node = TypeNode(child, unwrapped, var=var, cyclic=True)
+            elif is_visited and can_be_cyclic:
                 qualname = inspection.qualname(child)
                 *rest, refname = qualname.split(".", maxsplit=1)
                 is_argument = var is not None
@@ -185,8 +186,8 @@ class TypeNode:
     """The unwrapped type annotation for this node."""
     var: str | None = None
     """The variable or parameter name associated to the type annotation for this node."""
-    cyclic: bool = dataclasses.field(default=False, hash=False, compare=False)
-    """Whether this type annotation is cyclic."""
+    cyclic: bool = False
+    """Whether this type annotation is cyclic (a deferred node is distinct from the node it defers to)."""
 
     def __post_init__(self):
         if self.unwrapped is None:
